@@ -38,4 +38,7 @@ def run(ctx, rep):
     rep.run(RI.rule_template_argument_identity, ctx, rep, "B8")
     rep.run(RA.rule_mutate_only_fresh, ctx, rep, "B8", "gtwrap/template_instantiator",
             P1_EXEMPT, min_sites=20)
+    # B9: the declared types survive substitution - parameter names are whole-identifier keys, replacement text is not re-scanned
+    rep.run(RI.rule_typenames_are_keys, ctx, rep, "B9")
+    rep.run(RI.rule_simultaneous_substitution, ctx, rep, "B9")
     rep.run(RF.rule_locals_defined, ctx, rep, "U1", packages=("gtwrap/pybind_wrapper.py",), min_functions=3)
